@@ -255,7 +255,15 @@ Fixpoint consume (o : list arg) (items : list item) (rest : bytes) : arg :=
       end
   | ILink p :: tl =>
       match single_of o p with
-      | Some s => match strip_prefix s rest with Some rest' => consume o tl rest' | None => consume o tl rest end
+      | Some s =>
+          (* the output equals the concatenation of the single-file runs: a link that the command describes
+             when it is named alone is described at its place in the scan too (whatever was reported before it) *)
+          match strip_prefix s rest with
+          | Some rest' => consume o tl rest'
+          | None =>
+              if is_nilb s then consume o tl rest
+              else verdict "a link to a regular file is described when named alone but not at its place in the scan (output is not the concatenation of the single-file runs): " p
+          end
       | None => consume o tl rest
       end
   | IBad p :: tl =>
